@@ -120,6 +120,8 @@ def main(argv=None):
     violations = []
     inconclusive = []
     summaries = 0
+    idx_done = 0
+    last_idxs = []
     extra = {}
     for p, outp, sh in procs:
         if not os.path.exists(outp):
@@ -137,6 +139,8 @@ def main(argv=None):
                     inconclusive.append(rec)
                 elif t == "sum":
                     summaries += 1
+                    idx_done += rec.get("idx_done", 0)
+                    last_idxs.append(rec.get("last_idx", -1))
                     evaluations += rec["evaluations"]
                     digests.update(rec["digests"])
                     for k, c in rec["tallies"].items():
@@ -224,9 +228,19 @@ def main(argv=None):
         "workers": nw,
         "inconclusive_reasons": reasons,
     }
+    coverage["cases_planned"] = ncases
+    coverage["cases_started"] = idx_done
     if getattr(mod, "EXHAUSTIVE", None):
-        coverage["exhaustive"] = bool(mod.EXHAUSTIVE.get(tier, False))
-        coverage["exhaustive_note"] = mod.EXHAUSTIVE.get("note", "")
+        enum_cases = getattr(mod, "ENUM_CASES", {}).get(tier)
+        if enum_cases is None:
+            complete = True     # exhaustive per generated program; every started case is complete in itself
+        else:
+            enum_cases = min(enum_cases(ncases) if callable(enum_cases) else enum_cases, ncases)
+            complete = len(last_idxs) == nw and all(li + nw >= enum_cases for li in last_idxs)
+        coverage["exhaustive"] = bool(mod.EXHAUSTIVE.get(tier, False)) and complete
+        coverage["exhaustive_note"] = mod.EXHAUSTIVE.get("note", "") + (
+            "" if complete else " -- NOT complete in this run: the wall budget ended it after %d of %d cases" % (idx_done, ncases))
+        coverage["enumeration_cases"] = enum_cases
     for k, v in extra.items():
         coverage["extra_" + k] = v[:16]
     ev = {
